@@ -473,6 +473,13 @@ static var Thread_Val_Type(var self) {
 
 static void Thread_Mark(var self, var gc, void(*f)(var,void*)) {
   struct Thread* t = self;
+  /*
+  ** Thread local values belong to the thread that stored them and to its
+  ** collector. The collector of another thread (the one that created this
+  ** Thread with `new`) must not walk them: the owner may be changing the
+  ** table right now, and after it has exited the entries are stale.
+  */
+  if (self isnt Thread_Current()) { return; }
   mark(t->tls, gc, f);
 }
 
